@@ -59,7 +59,7 @@ add("C13","exploration",
  "Trusted: /proc fd view; a blocked cat reader keeps its file open; hook call sites srv.lim.* (the /proc observation decides, the trace cross-checks).",
  "DESIGN.md §2 C13")
 add("C02","exploration",
- "runtime monitoring: real dcat/dgrep (serverless and over SSH) with a harness-owned, size-limited stdout pipe read by seeded pacing programs (fast, slow, stalls placed around the queue/pipe boundaries); every line carries (file, sequence number, CRC); oracle = exactly-once in-order delivery per file, exit status 0, termination by a logical-time hang rule; hook traces attribute losses of multi-command sessions to the recorded finding",
+ "runtime monitoring: real dcat/dgrep (serverless and over SSH) with a harness-owned, size-limited stdout pipe read by seeded pacing programs (fast, slow, stalls of 0.15-16 s placed around the queue/pipe/window boundaries), sessions of killed clients before judged ones, race-detector pass in the thorough tier; every line carries (file, sequence number, CRC); oracle = exactly-once in-order delivery per file, exit status 0, termination by a logical-time hang rule; hook traces attribute losses of multi-command sessions to the recorded finding",
  "Held on the sessions counted in the evidence (pacing x size x files x limit x transport cells, distinct hook-order signatures).",
  "Trusted: /proc-based idle detection; finding c02.cmd-race is only accepted for multi-command sessions with suffix-only loss and a trace showing shutdown before a later command.",
  "DESIGN.md §2 C02")
@@ -69,7 +69,7 @@ add("C07","exploration",
  "Trusted: CRC32 self-description of the lines; host identity via DTAIL_HOSTNAME_OVERRIDE.",
  "DESIGN.md §2 C07")
 add("C06","exploration",
- "runtime monitoring: conservation oracle over real dmap runs against fleets of 1-32 in-process servers (every line carries weight 1 and its file id; result grouped per file or per shared group), hook-trace monitor of the server-side aggregator's registration/closed/finished order, failpoint-style delays at the hook points, logical-time hang rule; plus an in-process tier merging messages from N concurrent connections into one global group",
+ "runtime monitoring: conservation oracle (real dmap fleets, long and pipe-fed runs, in-process tiers driving the real server-side aggregator with a slow consumer and the real client merge from N concurrent connections, race-detector pass in the thorough tier); conservation oracle over real dmap runs against fleets of 1-32 in-process servers (every line carries weight 1 and its file id; result grouped per file or per shared group), hook-trace monitor of the server-side aggregator's registration/closed/finished order, failpoint-style delays at the hook points, logical-time hang rule; plus an in-process tier merging messages from N concurrent connections into one global group",
  "Held on the runs counted in the evidence (fleet sizes, files per server, limits, distinct aggregator event orders observed).",
  "Trusted: hook call sites for attribution only (the CSV decides); c06.agg-early-exit is accepted only with the trace pattern, no excess, and deficits on servers showing it.",
  "DESIGN.md §2 C06")
